@@ -105,10 +105,12 @@ func (env *Environment) NotifyEvent(e event.DeviceEvent) {
 func newEnvironment(userVars map[string]string, newId uid.ID) (env *Environment, err error) {
 	envId := newId
 	env = &Environment{
-		id:             envId,
-		workflow:       nil,
-		ts:             time.Now(),
-		incomingEvents: make(chan event.DeviceEvent),
+		id:       envId,
+		workflow: nil,
+		ts:       time.Now(),
+		// buffered: NotifyEvent never blocks, and the termination report of a hook task that arrives while the
+		// listener in runTasksAsHooks is still dealing with the previous one must not be lost
+		incomingEvents: make(chan event.DeviceEvent, 128),
 		// Every Environment instantiation performs a ConfSvc query for defaults and vars
 		// these key-values stay frozen throughout the lifetime of the environment
 		GlobalDefaults: gera.MakeMapWithMap(the.ConfSvc().GetDefaults()),
